@@ -37,6 +37,12 @@ def make_scratch(tag):
 def apply_edits(d, edits):
     """edits: list of (file, old, new); returns None or a reason the mutant no longer applies"""
     for (fn, old, new) in edits:
+        if fn == "@patch":  # a whole patch file kept under /verif (independently produced refactorings)
+            r = subprocess.run(["patch", "-p1", "-s", "-i", os.path.join(VERIF, old)], cwd=d,
+                               stdout=subprocess.PIPE, stderr=subprocess.STDOUT, text=True)
+            if r.returncode != 0:
+                return "patch %s does not apply: %s" % (old, r.stdout[-200:])
+            continue
         p = os.path.join(d, fn)
         if not os.path.exists(p):
             return "file %s missing" % fn
